@@ -4,7 +4,7 @@
    Part 3/4: the six facts for v2 and v1 from the byte-level definitions.  Part 5: histories and caches. *)
 From Coq Require Import ZArith List Bool Lia FMapPositive ZifyBool.
 Import ListNotations.
-From MP Require Import Base Bytes Gen_compact Bundle.
+From MP Require Import Base Bytes Gen_compact Gen_compact_fmt Bundle.
 Local Open Scope Z_scope.
 Ltac Zify.zify_post_hook ::= Z.to_euclidean_division_equations.
 
@@ -665,6 +665,18 @@ Proof. rewrite Z.shiftr_div_pow2 by lia. reflexivity. Qed.
 Lemma shiftl40 v : Z.shiftl v 40 = v * two40.
 Proof. rewrite Z.shiftl_mul_pow2 by lia. reflexivity. Qed.
 
+(* what the generated index-entry arithmetic (gen/Gen_compact_fmt.v, from the Python source) has to be *)
+Lemma v2_entry_size_spec v : v2_entry_size v = v / two40.
+Proof. unfold v2_entry_size. apply shiftr40. Qed.
+Lemma v2_entry_offset_spec v : v2_entry_offset v = v - v / two40 * two40.
+Proof. unfold v2_entry_offset. cbv zeta. now rewrite v2_entry_size_spec, shiftl40. Qed.
+Lemma v2_entry_encode_spec o sz : v2_entry_encode o sz = o + sz * two40.
+Proof. unfold v2_entry_encode. now rewrite shiftl40. Qed.
+Lemma v2_entry_bytes_spec : v2_entry_bytes = 8%nat.
+Proof. reflexivity. Qed.
+Lemma v1_entry_bytes_spec : v1_entry_bytes = 5%nat /\ v1_entry_write_bytes = 5%nat /\ v1_entry_remove_bytes = 5%nat.
+Proof. repeat split; reflexivity. Qed.
+
 Lemma v2_idx_range s : slot_ok s -> 64 <= v2_idx s /\ v2_idx s + 8 <= B2 /\ v2_idx s mod 8 = 0.
 Proof.
   unfold slot_ok, v2_idx, v2_tile_idx_offset, BUNDLE_V2_HEADER_SIZE, BUNDLE_V2_GRID_HEIGHT, B2, V2_INDEX_SIZE.
@@ -685,8 +697,8 @@ Lemma v2_load_rec f s : v2_Inv f -> slot_ok s ->
   v2_load f s = match v2_rec f s with Some (_, d) => RData d | None => RMissing end.
 Proof.
   intros [[G1 [G2 _]] [Hb _]] Hs. destruct (v2_idx_range s Hs) as [I1 [I2 _]].
-  unfold v2_load, v2_tile_offset_size. rewrite brdnum_some by (change (Z.of_nat 8) with 8; lia).
-  specialize (G2 s). unfold v2_rec in *. rewrite shiftr40, shiftl40.
+  unfold v2_load, v2_tile_offset_size. rewrite v2_entry_bytes_spec. rewrite brdnum_some by (change (Z.of_nat 8) with 8; lia).
+  specialize (G2 s). unfold v2_rec in *. rewrite v2_entry_size_spec, v2_entry_offset_spec.
   set (val := brd f (v2_idx s) 8) in *. destruct (val / two40 =? 0) eqn:E; [cbn; reflexivity|].
   rewrite E.
   pose proof (brd_bound f (v2_idx s) 8 Hb) as Hv. rewrite pow8 in Hv. fold val in Hv.
@@ -707,7 +719,7 @@ Proof.
   set (e := blen f) in *. set (size := zlen d) in *.
   assert (HB2 : B2 = 131136) by reflexivity.
   destruct (v2_decode (e + 4) size) as [D1 [D2 D3]]; [unfold two40 in *; lia|lia|].
-  unfold v2_store1. fold size. fold e. rewrite shiftl40.
+  unfold v2_store1. fold size. fold e. rewrite v2_entry_encode_spec.
   destruct (two32 <=? size) eqn:E32; [unfold two32, two24 in *; lia|]. clear E32.
   destruct (two64 <=? e + 4 + size * two40) eqn:E64; [lia|]. clear E64.
   set (val := e + 4 + size * two40) in *.
@@ -787,7 +799,7 @@ Lemma v2_remove_facts f s : v2_Inv f -> slot_ok s ->
 Proof.
   intros [[G1 [G2 _]] [Hb [Hfs Hrec]]] Hs. destruct (v2_idx_range s Hs) as [I1 [I2 _]].
   assert (HB2 : B2 = 131136) by reflexivity.
-  unfold v2_remove1. set (f' := bwrite f (v2_idx s) (le 8 0)).
+  unfold v2_remove1. rewrite v2_entry_encode_spec. change (0 + 0 * two40) with 0. set (f' := bwrite f (v2_idx s) (le 8 0)).
   assert (L : blen f' = blen f) by (unfold f'; rewrite blen_bwrite, zlen_le; lia).
   assert (F : forall o n, o + Z.of_nat n <= v2_idx s \/ v2_idx s + 8 <= o -> bread f' o n = bread f o n).
   { intros o n H. unfold f'. apply bread_bwrite_out; [lia|rewrite zlen_le; lia]. }
@@ -923,8 +935,8 @@ Lemma v2_tos_rec f s : v2_Inv f -> slot_ok s ->
     (if size =? 0 then 0 else size + 4) = rec_len (v2_rec f s).
 Proof.
   intros [[G1 [G2 _]] [Hb _]] Hs. destruct (v2_idx_range s Hs) as [I1 [I2 _]].
-  unfold v2_tile_offset_size. rewrite brdnum_some by (change (Z.of_nat 8) with 8; lia).
-  unfold v2_rec. rewrite shiftr40. set (val := brd f (v2_idx s) 8).
+  unfold v2_tile_offset_size. rewrite v2_entry_bytes_spec. rewrite brdnum_some by (change (Z.of_nat 8) with 8; lia).
+  unfold v2_rec. rewrite v2_entry_size_spec. set (val := brd f (v2_idx s) 8).
   pose proof (brd_bound f (v2_idx s) 8 Hb) as Hv. rewrite pow8 in Hv. fold val in Hv.
   destruct (val / two40 =? 0) eqn:E.
   - exists 0, 0. split; reflexivity.
@@ -1033,7 +1045,7 @@ Lemma v1_load_rec st s : v1_Inv st -> slot_ok s ->
 Proof.
   intros [_ [Hbi [Hbd [Hli [Hent _]]]]] Hs. destruct st as [idx dat]. cbn [fst snd] in *.
   destruct (v1_ioff_range s Hs) as [I1 I2].
-  unfold v1_load, v1_tile_offset. rewrite brdnum_some by (rewrite Hli; unfold X1; change (Z.of_nat 5) with 5; lia).
+  unfold v1_load, v1_tile_offset, v1_entry_bytes. rewrite brdnum_some by (rewrite Hli; unfold X1; change (Z.of_nat 5) with 5; lia).
   unfold v1_rec. cbn [fst snd]. specialize (Hent s Hs). cbv zeta in Hent.
   set (off := brd idx (v1_ioff s) 5) in *.
   destruct (off =? 0) eqn:E0; [reflexivity|]. destruct Hent as [?|[H60 Hin]]; [lia|].
@@ -1071,7 +1083,7 @@ Proof.
   assert (HB1 : B1 = 65596) by reflexivity. assert (HX1 : X1 = 81952) by reflexivity.
   assert (T40 : two40 = 1099511627776) by reflexivity. assert (T32 : two32 = 4294967296) by reflexivity.
   assert (T64 : two64 = 18446744073709551616) by reflexivity.
-  unfold v1_store1, v1_tile_offset.
+  unfold v1_store1, v1_tile_offset, v1_entry_bytes, v1_entry_write_bytes.
   rewrite brdnum_some by (rewrite Hli; change (Z.of_nat 5) with 5; lia).
   set (prev := brd idx (v1_ioff s) 5).
   assert (Hnew : exists b, (if prev =? 0 then Some true
@@ -1174,7 +1186,7 @@ Lemma v1_remove_facts st s : v1_Inv st -> slot_ok s ->
 Proof.
   intros [_ [Hbi [Hbd [Hli [Hent [H5 [H4 Hmax]]]]]]] Hs. destruct st as [idx dat]. unfold v1_dlen, v1_remove1. cbn [fst snd] in *.
   destruct (v1_ioff_range s Hs) as [I1 I2]. assert (HX1 : X1 = 81952) by reflexivity.
-  change [0; 0; 0; 0; 0] with (le 5 0). set (idx' := bwrite idx (v1_ioff s) (le 5 0)).
+  change (repeat 0 v1_entry_remove_bytes) with (le 5 0). set (idx' := bwrite idx (v1_ioff s) (le 5 0)).
   assert (Li : blen idx' = X1) by (unfold idx'; rewrite blen_bwrite, zlen_le, Hli; change (Z.of_nat 5) with 5; lia).
   assert (Fi : forall o n, o + Z.of_nat n <= v1_ioff s \/ v1_ioff s + 5 <= o -> bread idx' o n = bread idx o n).
   { intros o n H. unfold idx'. apply bread_bwrite_out; [lia|rewrite zlen_le; change (Z.of_nat 5) with 5; lia]. }
@@ -1365,7 +1377,7 @@ Lemma v1_tos_rec st s : v1_Inv st -> slot_ok s ->
   end.
 Proof.
   intros [_ [Hbi [Hbd [Hli [Hent _]]]]] Hs. destruct (v1_ioff_range s Hs) as [I1 I2].
-  unfold v1_tile_offset. rewrite brdnum_some by (rewrite Hli; unfold X1; change (Z.of_nat 5) with 5; lia).
+  unfold v1_tile_offset, v1_entry_bytes. rewrite brdnum_some by (rewrite Hli; unfold X1; change (Z.of_nat 5) with 5; lia).
   unfold v1_rec. specialize (Hent s Hs). cbv zeta in Hent. set (off := brd (fst st) (v1_ioff s) 5) in *.
   destruct (off =? 0) eqn:E0; [reflexivity|]. destruct Hent as [?|[H60 Hin]]; [lia|].
   pose proof (brd_bound (snd st) off 4 Hbd) as Hn. rewrite pow4 in Hn.
